@@ -133,6 +133,7 @@ type openOpts struct {
 	nfs, ngs, ro bool
 	nosync       bool
 	pre, strict  bool
+	ml           bool // Options.Mlock
 	asz          int
 }
 
@@ -149,6 +150,9 @@ func (o openOpts) String() string {
 	}
 	if o.strict {
 		s += " strict=1"
+	}
+	if o.ml {
+		s += " ml=1"
 	}
 	if o.asz != 0 {
 		s += fmt.Sprintf(" asz=%d", o.asz)
@@ -183,6 +187,8 @@ func parseOpen(fields []string) openOpts {
 			o.pre = n != 0
 		case "strict":
 			o.strict = n != 0
+		case "ml":
+			o.ml = n != 0
 		case "asz":
 			o.asz = n
 		}
@@ -196,7 +202,7 @@ func (o openOpts) boltOptions() *bolt.Options {
 		ft = bolt.FreelistMapType
 	}
 	return &bolt.Options{PageSize: o.ps, FreelistType: ft, NoFreelistSync: o.nfs, NoGrowSync: o.ngs,
-		InitialMmapSize: o.imm, ReadOnly: o.ro, MaxSize: o.max, Timeout: 2 * time.Second, PreLoadFreelist: o.pre}
+		InitialMmapSize: o.imm, ReadOnly: o.ro, MaxSize: o.max, Timeout: 2 * time.Second, PreLoadFreelist: o.pre, Mlock: o.ml}
 }
 
 type runner struct {
